@@ -1,5 +1,6 @@
 mod chain;
 mod dbhist;
+mod docver;
 mod pools;
 mod synchist;
 mod util;
@@ -48,28 +49,38 @@ fn main() {
     match fam.as_str() {
         "synchist-seq" => {
             for id in first..first + count {
-                emit(&mut out, synchist::gen_seq(seed, id, maxlen));
+                emit(&mut out, util::guarded(|| synchist::gen_seq(seed, id, maxlen)));
             }
         }
         "synchist-sched" => {
             for id in first..first + count {
-                emit(&mut out, synchist::gen_sched(seed, id, maxlen));
+                emit(&mut out, util::guarded(|| synchist::gen_sched(seed, id, maxlen)));
+            }
+        }
+        "synchist-snap" => {
+            for id in first..first + count {
+                emit(&mut out, util::guarded(|| synchist::gen_snap(seed, id, maxlen)));
+            }
+        }
+        "synchist-wire" => {
+            for id in first..first + count {
+                emit(&mut out, util::guarded(|| synchist::gen_wire(seed, id, maxlen)));
             }
         }
         "synchist-fault" => {
             for id in first..first + count {
-                emit(&mut out, synchist::gen_fault(seed, id, maxlen));
+                emit(&mut out, util::guarded(|| synchist::gen_fault(seed, id, maxlen)));
             }
         }
         "orders" => {
             for id in first..first + count {
-                emit(&mut out, synchist::gen_orders(seed, id));
+                emit(&mut out, util::guarded(|| synchist::gen_orders(seed, id)));
             }
         }
         "orders-exec" => {
             let p = arg(&args, "--script").expect("--script");
             let s: Value = serde_json::from_str(&std::fs::read_to_string(p).unwrap()).unwrap();
-            emit(&mut out, synchist::run_orders(&s));
+            emit(&mut out, util::guarded(|| synchist::run_orders(&s)));
         }
         "db-commit" | "db-undo" | "db-ws" => {
             let sqlite = args.iter().any(|a| a == "--sqlite");
@@ -77,18 +88,25 @@ fn main() {
             for id in first..first + count {
                 // every other case runs on SQLite when asked for "both"
                 let sq = sqlite || (args.iter().any(|a| a == "--both") && id % 2 == 1);
-                emit(&mut out, dbhist::gen_db(seed, id, sq, focus, maxlen));
+                emit(&mut out, util::guarded(|| dbhist::gen_db(seed, id, sq, focus, maxlen)));
             }
         }
         "dbhist-exec" => {
             let p = arg(&args, "--script").expect("--script");
             let s: Value = serde_json::from_str(&std::fs::read_to_string(p).unwrap()).unwrap();
-            emit(&mut out, dbhist::exec_db(&s));
+            emit(&mut out, util::guarded(|| dbhist::exec_db(&s)));
+        }
+        "doc-versions" => {
+            // --examples <file>: one documented example version per line
+            let p = arg(&args, "--examples").expect("--examples");
+            let ex: Vec<String> = std::fs::read_to_string(p).unwrap().lines().filter(|l| !l.trim().is_empty()).map(|l| l.to_string()).collect();
+            std::panic::set_hook(Box::new(|_| {}));
+            writeln!(out, "{}", docver::run(&ex)).unwrap();
         }
         "synchist-exec" => {
             let p = arg(&args, "--script").expect("--script");
             let s: Value = serde_json::from_str(&std::fs::read_to_string(p).unwrap()).unwrap();
-            emit(&mut out, synchist::exec_script(&s));
+            emit(&mut out, util::guarded(|| synchist::exec_script(&s)));
         }
         _ => {
             eprintln!("unknown family {fam}");
